@@ -148,6 +148,7 @@ def run(ctx):
     # wave 3: scratch buffers of the run headers (capacity table regenerated from writer.py) and the time-zone text
     caps = wlevels.translate_scratch(ctx)
     ctx.coq_file(os.path.join(C.COQ, "props", "C01_headers.v"))
+    ctx.coq_file(os.path.join(C.COQ, "props", "C01_convert.v"))
     if os.path.exists(os.path.join(C.COQ, "props", "C01_chunk.v")):
         # chunk level: reader model (incl. the selfmade shortcuts) applied to the writer model's chunk = the column
         ctx.coq_file(os.path.join(C.COQ, "props", "C01_chunk.v"))
@@ -215,6 +216,8 @@ def run(ctx):
     wlevels.run(ctx, pq)
     wlevels.run_scratch(ctx, pq, caps)
     wlevels.run_tz(ctx, pq)
+    from harness import wconvert
+    wconvert.run(ctx, pq)
     pq.close()
 
 
@@ -222,6 +225,9 @@ def replay_function_case(case):
     """re-execute a function-level case (time-zone text, run header at a given row count) on the real code"""
     C.use_shadow()
     from harness import wlevels
+    if "w_convert" in case:
+        from harness import wconvert
+        return wconvert.replay(case)
     pq = C.Pqref()
     try:
         if "tz_seconds" in case:
@@ -251,7 +257,7 @@ def replay_function_case(case):
 def replay(rep):
     warnings.filterwarnings("ignore")
     case = rep.get("case", {})
-    if rep.get("kind") != "no-failing-input-found" and ("tz_seconds" in case or "make_definitions" in case or "encode_dict" in case):
+    if rep.get("kind") != "no-failing-input-found" and ("tz_seconds" in case or "make_definitions" in case or "encode_dict" in case or "w_convert" in case):
         return replay_function_case(case)
     if rep.get("kind") == "no-failing-input-found" or "spec" not in case:
         print(json.dumps(rep, indent=1)[:6000])
